@@ -83,7 +83,7 @@ def run(ctx):
         if len(pushes) + len(stores) > 1:
             probs_val.append("more than one store per add")
         # len = min(i, k) needs every call in the fill phase to append: a path must either append or refute `i < k`
-        if not pushes and fd.get(repr(fill)) is not False:
+        if not pushes and fv(fd, fill) is not False:
             probs_len.append("a path neither appends the item nor establishes i >= k (an item of the fill phase can be dropped, so len < min(n, k))")
     ctx.check(not probs_len and n_push >= 1, "R18-length", add.key, add, "%d paths: push only under i < k; i += 1 exactly once per call" % n,
               "; ".join(sorted(set(probs_len))[:3]) or "no push found")
@@ -100,11 +100,8 @@ def run(ctx):
     ctx.check("k" in cf, "R18-config", RS + ":k", add, "k is never written outside the constructor", "field k is written by a method: the `k >= 1` invariant from new() is not stable")
     tbn = TermBuilder(new, prog)
     from ..guards import atomic_facts, int_bounds
-    agg_bb = None
-    for bi, blk in enumerate(new.blocks):
-        for st in blk.stmts:
-            if st.k == "assign" and st.rv.k == "aggregate" and st.rv.j.get("adt") == RS:
-                agg_bb = bi
+    from .common import construction_blocks
+    agg_bb = (construction_blocks(ctx, new, RS) or [None])[-1]
     lo = None
     if agg_bb is not None:
         lo, _ = int_bounds(atomic_facts(new, prog, agg_bb, tbn), ("param", 1, "k"))
